@@ -191,6 +191,9 @@ def run(ctx):
         I.track_xr = True
         info = make_info(repo, per_fit, shapes)
         out = I.call(keep, [(letter, scalar(sym('number'), num(1)))], selfv=info)
+        if I.lost:
+            ctx.undecided('ALG-11', "selector '%s'" % letter, where, 'a call made by keep() for its effect was not modelled: %s' % (str(I.lost[0])[:120],))
+            continue
         ref = reference_count(letter)
         cuts = {}
         for k in per_fit:
@@ -220,7 +223,13 @@ def run(ctx):
                     elif isinstance(got, Unk):
                         ctx.undecided('PERM-2', inst, where, repr(got))
                     else:
-                        ctx.violation('PERM-2', inst, where, '%s is not a prefix [:n_fits] of the ranked array: %s' % (k, alg.show(got.poly, 160) if isinstance(got, Arr) else got), 'not-prefix')
+                        # some other selection of the ranked array: a violation when it is built from the array itself with operations whose meaning is
+                        # known (a gather, a reversal, a mask); otherwise not decided
+                        syms_, fns_ = alg.leaf_syms(got.poly) if isinstance(got, Arr) else (set(), {'?'})
+                        if isinstance(got, Arr) and syms_ <= {k, 'chi2', 'valid', 'number'} | {x_ for x_ in syms_ if x_.startswith('idx:')} and fns_ <= {'at', 'rev', 'argsort', 'len', 'nonzero', 'first', 'last', 'slice'}:
+                            ctx.violation('PERM-2', inst, where, '%s is not a prefix [:n_fits] of the ranked array: %s' % (k, alg.show(got.poly, 160)), 'not-prefix')
+                        else:
+                            ctx.undecided('PERM-2', inst, where, 'selection not recognised: %s' % (alg.show(got.poly, 120) if isinstance(got, Arr) else got,))
                 else:
                     ctx.expect(cuts[k] == n, 'PERM-2', inst, where, '%s == %s[:n_fits] with the same n_fits as every other array' % (k, k),
                                '%s cut with a different count %s' % (k, alg.show(cuts[k], 120)), 'different-count')
@@ -229,13 +238,21 @@ def run(ctx):
     info = make_info(repo, per_fit, shapes)
     info.attrs['model_fluxes'] = None
     I.call(keep, [('C', scalar(sym('number'), num(1)))], selfv=info)
-    ctx.expect(info.attrs.get('model_fluxes') is None and cut_of(info.attrs.get('chi2'), 'chi2', shapes) is not None, 'PERM-2', 'absent predicted fluxes', where,
-               'absent predicted fluxes stay absent; other arrays still cut', 'keep() misbehaves when predicted fluxes are absent: %r' % (info.attrs.get('model_fluxes'),), 'none-guard')
+    r_ = I.call(keep, [('C', scalar(sym('number'), num(1)))], selfv=info) if False else None
+    mf_, c2_ = info.attrs.get('model_fluxes'), info.attrs.get('chi2')
+    if I.lost or (mf_ is None and cut_of(c2_, 'chi2', shapes) is None and not (isinstance(c2_, Arr) and c2_.poly == sym('chi2', R))):
+        ctx.undecided('PERM-2', 'absent predicted fluxes', where, 'the cut of the other arrays was not recognised: %r' % (c2_,))
+    else:
+        ctx.expect(mf_ is None and cut_of(c2_, 'chi2', shapes) is not None, 'PERM-2', 'absent predicted fluxes', where,
+                   'absent predicted fluxes stay absent; other arrays still cut', 'keep() misbehaves when predicted fluxes are absent: %r' % (mf_,), 'none-guard')
     # unknown letter raises
     I = Interp(repo, KeepHooks(False))
     info = make_info(repo, per_fit, shapes)
     out = I.call(keep, [('Z', scalar(sym('number'), num(1)))], selfv=info)
-    ctx.expect(isinstance(out, Unk) and 'raises' in out.why, 'ALG-11', 'unknown selector letter', where, 'raises', 'an unknown selector letter is accepted silently', 'unknown-letter')
+    if not (isinstance(out, Unk) and 'raises' in out.why) and (I.lost or getattr(I, '_unknown_conds', 0) or isinstance(out, Unk)):
+        ctx.undecided('ALG-11', 'unknown selector letter', where, 'not decided: %r' % (out if isinstance(out, Unk) else I.lost[:1],))
+    else:
+        ctx.expect(isinstance(out, Unk) and 'raises' in out.why, 'ALG-11', 'unknown selector letter', where, 'raises', 'an unknown selector letter is accepted silently', 'unknown-letter')
     # empty result keeps nothing
     I = Interp(repo, KeepHooks(True))
     info = make_info(repo, per_fit, shapes)
